@@ -63,7 +63,19 @@ contract(
 )
 
 
+_NN_CALLS = [0]
+
+
 def _gen_nn(rng, size):
+    _NN_CALLS[0] += 1
+    if _NN_CALLS[0] % 140 == 7:
+        # a query block larger than any plausible internal batch size (10 000 / 2**14 rows): the
+        # result for row q must not depend on how the rows are batched
+        import numpy as np
+        n1 = rng.choice([10001, 10007, 16385, 20011])
+        a = np.array([[0., 1., 2., 5.], [3., 1., 0., 0.], [1., 4., 1., 2.]])
+        b = np.array([[float((q * 7 + g * 3) % 5 + (g == q % 4)) for g in range(4)] for q in range(n1)])
+        return dict(baseline_array=a, query_array=b, return_correlation=True)
     a, b = _gen_pair(rng, size)
     return dict(baseline_array=a, query_array=b, return_correlation=True)
 
